@@ -220,6 +220,11 @@ var errEmptyMessage = errors.New("empty Message")
 func (mq *MessageQueue) extractOutgoingMessage() (gsmsg.GraphSyncMessage, internalMetadata, error) {
 	// grab outgoing message
 	mq.buildersLk.Lock()
+	// skip builders nothing was added to: an empty builder must not look like the end of
+	// the queue to the shutdown drain
+	for len(mq.builders) > 0 && mq.builders[0].Empty() {
+		mq.builders = mq.builders[1:]
+	}
 	if len(mq.builders) == 0 {
 		mq.buildersLk.Unlock()
 		return gsmsg.GraphSyncMessage{}, internalMetadata{}, errEmptyMessage
